@@ -5,6 +5,7 @@ package main
 // operations, (c) can fail the n-th storage call of a given kind (fault injection, C17).
 
 import (
+	"time"
 	"bytes"
 	"errors"
 	"sort"
@@ -35,6 +36,13 @@ type recDB struct {
 	faultFired int
 	calls      []string // call kinds in order since arm (for enumeration)
 	recordCall bool
+
+	// read gate (conc mode): the next Get of gateKey is performed, then held back until gateRelease is
+	// closed or gatePatience has passed; gateAt is signalled when the read has been performed
+	gateKey      []byte
+	gateAt       chan struct{}
+	gateRelease  chan struct{}
+	gatePatience time.Duration
 }
 
 func newRecDB(inner corestore.KVStoreWithBatch) *recDB { return &recDB{inner: inner} }
@@ -66,8 +74,23 @@ func (d *recDB) Get(key []byte) ([]byte, error) {
 	}
 	d.mu.Lock()
 	d.reads++
+	gated := d.gateKey != nil && bytes.Equal(key, d.gateKey)
+	var at, rel chan struct{}
+	var patience time.Duration
+	if gated {
+		at, rel, patience = d.gateAt, d.gateRelease, d.gatePatience
+		d.gateKey = nil // one shot
+	}
 	d.mu.Unlock()
-	return d.inner.Get(key)
+	v, err := d.inner.Get(key)
+	if gated {
+		at <- struct{}{}
+		select {
+		case <-rel:
+		case <-time.After(patience):
+		}
+	}
+	return v, err
 }
 
 func (d *recDB) Has(key []byte) (bool, error) {
